@@ -31,6 +31,10 @@ SingleSolves(times, k, stops) ==
 ScriptsC07Full  == SingleSolves({0, 1, 2, 4, 5, 8, 9, 12, 16, 20}, 3, StopsFull)
 ScriptsC07Quick == SingleSolves({0, 1, 2, 4, 5, 8, 9, 12}, 2, StopsSmall)
 
+(* C07 around the origin of times: start times <= 0, a stop time of exactly 0, negative save times *)
+T0sNeg == {-8, 0}
+ScriptsC07Neg == SingleSolves({-8, -4, 0, 4, 8}, 2, {<<0, None>>, <<-4, None>>, <<4, None>>, <<None, 2>>, <<0, 1>>, <<None, None>>})
+
 (* C08: histories on one solver object *)
 SolveVariants == {MkCall("solve", "f0", <<>>, None, 3, {}),           \* plain
                   MkCall("solve", "f0", <<>>, None, 3, {1, 2}),       \* with monitors
